@@ -22,7 +22,7 @@ ASSUMPTIONS = ['unit cells are bounded by pairs of parallel planes listed pairwi
 
 def plan(tier):
     q = tier == 'quick'
-    return [('monitor', 340 if q else 3000, {}), ('optlattice', 200 if q else 1500, {}), ('model', 50 if q else 800, {}),
+    return [('monitor', 340 if q else 3000, {}), ('optlattice', 200 if q else 1500, {}), ('model', 260 if q else 2500, {}),
             ('degenerate', 6 if q else 40, {})]
 
 
@@ -102,7 +102,7 @@ def run_case(stream, seed, ctx, params):
                 host.mat, host.rho = 0, None
                 host.fill = {'u': u2, 'tr': host.fill.get('tr') if host.fill else None}
                 d.cells.append(c2)
-    r = run_deck(ctx, stream, d, args, rng, npts=params.get('npts', 150), check_model=(stream == 'model'),
+    r = run_deck(ctx, stream, d, args, rng, npts=params.get('npts', 150), check_model=(stream == 'model' or getattr(d, '_tiny_tilt', False)),
                  known_classes=_known)
     if r is not None and not any(c.lat and len(c.fill['us']) > 1 for c in d.cells):
         r['nontrivial_hashes'] = []
